@@ -73,14 +73,43 @@ class Checker:
         self.errors: List[str] = []
         self.extra: Dict[str, object] = {}
         self.assumptions: List[str] = []
+        self._remap = None
         self.t0 = time.time()
         self.seed = int(os.environ.get("VERIF_SEED", "0") or 0)
 
+    # ------------------------------------------------------------ borrowing rules of another property
+    def borrow(self, module, new_prefix: str):
+        """Context manager: run rule functions of another property's module under this property's ids.
+        A rule id ``Cxx.Ry`` recorded inside the block becomes ``<new_prefix>Cxx.Ry``."""
+        ck = self
+
+        class _Ctx:
+            def __enter__(self_inner):
+                self_inner.old = ck._remap
+                ck._remap = (new_prefix, getattr(module, "RULES", {}))
+                return ck
+
+            def __exit__(self_inner, *a):
+                ck._remap = self_inner.old
+                return False
+        return _Ctx()
+
+    def _rule(self, rule: str) -> str:
+        if self._remap is None or rule.startswith(self.prop + "."):
+            return rule
+        new_prefix, texts = self._remap
+        new = new_prefix + rule
+        if new not in self.rules_text:
+            self.rules_text = dict(self.rules_text)
+            self.rules_text[new] = "(shared rule) " + texts.get(rule, rule)
+        return new
+
     # ------------------------------------------------------------ recording
     def ok(self, rule: str, where: str, what: str, nontrivial: bool = True, detail: Optional[str] = None):
-        self.instances.append(Instance(rule, where, what, "ok", nontrivial, detail))
+        self.instances.append(Instance(self._rule(rule), where, what, "ok", nontrivial, detail))
 
     def violation(self, rule: str, func: str, key: str, msg: str, loc: str = "", path: Optional[List[str]] = None):
+        rule = self._rule(rule)
         f = Finding(self.prop, rule, func, key, msg, loc, list(path or []))
         # de-duplicate on identity
         for g in self.findings:
@@ -97,6 +126,7 @@ class Checker:
         self.errors.append(text)
 
     def floor(self, rule: str, found: int, minimum: int, what: str):
+        rule = self._rule(rule)
         """A rule that matches fewer sites than were confirmed by hand cannot pass vacuously."""
         if found < minimum:
             self.error(f"rule {rule}: found {found} {what}, need at least {minimum} "
